@@ -27,7 +27,7 @@ ID = 'C08'
 
 MANIFEST = dict(
     technique='explicit-state exploration of all page-processing histories on long-lived real PageDecoder / PageParser objects x decoder configurations; differential oracle against a fresh instance; parallel mode modelled as share-nothing deep copies over all task assignments, plus a real multi-process conformance run',
-    text='Bounded exhaustive: every history of up to 3 (quick) / 4 (thorough) pages over a 6-page alphabet on one PageDecoder in 18 configurations (greedy, beam, beam+LM and beam-1+LM with and without carried state x confidence threshold None/0.5/0) and over a 5-page image alphabet on one PageParser in 4 configurations; the last page of every history must come out exactly as from a fresh instance (transcriptions, confidences, logits). Every assignment of every 3-page batch to two fork-time copies must equal the sequential run, and parse_folder --process-count 2 must write the same PAGE XML and line crops as --process-count 1 (model-free stage, as the tool supports). Added: beam-1 + LM configurations, a page that needs a beam of three prefixes and a page whose first frame has a single candidate (all histories of up to two pages include them); every history of up to three imports of PAGE documents whose lines carry no heights (the heights the loader derives must equal those of the document loaded on its own). Histories of pages through the model-free LINES_SIMPLE_THRESHOLD layout stage of one PageParser (sparse and densely traced region outlines).',
+    text='Bounded exhaustive: every history of up to 3 (quick) / 4 (thorough) pages over an 8-page alphabet (6 core pages beyond depth 2) on one PageDecoder in 21 configurations (greedy, beam, beam+LM and beam-1+LM with and without carried state x confidence threshold None/0.5/0) and over a 5-page image alphabet on one PageParser in 4 configurations; the last page of every history must come out exactly as from a fresh instance (transcriptions, confidences, logits). Every assignment of every 3-page batch to two fork-time copies must equal the sequential run, and parse_folder --process-count 2 must write the same PAGE XML and line crops as --process-count 1 (model-free stage, as the tool supports). Added: beam-1 + LM configurations, a page that needs a beam of three prefixes and a page whose first frame has a single candidate (all histories of up to two pages include them); every history of up to three imports of PAGE documents whose lines carry no heights (the heights the loader derives must equal those of the document loaded on its own). Histories of pages through the model-free LINES_SIMPLE_THRESHOLD layout stage of one PageParser (sparse and densely traced region outlines).',
     note='OS scheduling of real worker processes is modelled (share-nothing copies), not explored; toy LM; the CNN layout engine\'s adaptive down-sampling state needs a trained network and is not covered.',
     ref='3/C08')
 
@@ -492,8 +492,8 @@ def check_case(case, ctx):
 
 def describe(tier):
     return {
-        'rule': 'all histories of up to depth pages (6-page alphabet) on one PageDecoder x 4 decoder configurations x 3 thresholds; all histories '
-                'of up to pdepth pages (4-page image alphabet) on one PageParser x 4 configurations; all 3-page batches x all assignments to 2 '
+        'rule': 'all histories of up to depth pages (8-page alphabet up to depth 2, its 6 core pages beyond) on one PageDecoder x 7 decoder configurations x 3 thresholds; all histories '
+                'of up to pdepth pages (5-page image alphabet) on one PageParser x 4 configurations; all 3-page batches x all assignments to 2 '
                 'deep-copied workers; 1 real parse_folder run with 2 processes. state = (configuration, carried last_line / LM state) resp. '
                 'recent history. Non-trivial: histories in which the predecessor page left LM context / had lines; assignments using both workers.',
         'bounds': BOUNDS[tier],
